@@ -255,6 +255,44 @@ def run(chk):
                 break
         chk.nontriv(repr((t, ops)))
         chk.dist("history:%s" % "-".join(o[0] for o in ops[:2]))
+    # ---- the same table in the container types a caller may hold: ndarray of floats, ndarray of integers, list of tuples / lists with
+    # Python ints and floats mixed (the first item decides nothing) ---------------------------------------------------------------------
+    T = 150 if chk.quick else 3000
+    for _ in range(T):
+        k = rng.randint(1, 5)
+        whole = rng.random() < 0.5
+        rows = []
+        for _i in range(k):
+            r = rng.randint(0, 12) if whole or rng.random() < 0.5 else rng.randint(0, 48) / 4
+            m = rng.randint(-6, 6) if whole or rng.random() < 0.5 else rng.randint(-24, 24) / 4
+            c = rng.choice([1, 1, 2, 3]) if whole or rng.random() < 0.5 else 0.5
+            rows.append((r, m, c))
+        if all(r == 0 for r, _, _ in rows) or len(set(m for _, m, _ in rows)) < 2:
+            continue
+        ref = np.array([[float(v) for v in row] for row in rows])
+        forms = [("list of tuples", lambda: [tuple(row) for row in rows]), ("list of lists", lambda: [list(row) for row in rows]),
+                 ("tuple of tuples", lambda: tuple(tuple(row) for row in rows))]
+        if whole:
+            forms.append(("ndarray of integers", lambda: np.array(rows, dtype=int)))
+        n, binby = rng.choice([1, 2, 3, 5]), rng.choice(["range", "mean"])
+        exp = rebin(ref.copy(), binby=binby, n=n)
+        expm = mesh(ref.copy(), nr=n, nm=2)[2]
+        for label, mk in forms:
+            inp = dict(kind="container", form=label, table=[[repr(v) for v in row] for row in rows], binby=binby, n=n)
+            chk.count("container")
+            chk.dist("container:" + label)
+            try:
+                got = rebin(mk(), binby=binby, n=n)
+                gotm = mesh(mk(), nr=n, nm=2)[2]
+            except Exception as e:
+                chk.fail("rebin/mesh must not raise on a valid table (whatever container / number type holds it)", inp, "table",
+                         "%s: %s" % (type(e).__name__, str(e)[:80]), clause="raise")
+                continue
+            if np.shape(got) != np.shape(exp) or not np.allclose(got, exp, rtol=1e-12, atol=1e-12, equal_nan=True) or \
+                    not np.allclose(gotm, expm, rtol=1e-12, atol=1e-12):
+                chk.fail("grouping a table gives the same result whatever container / number type holds it (total, weighted sum and bins "
+                         "are those of the table's values)", inp, exp.tolist()[:6], np.asarray(got).tolist()[:6], clause="container")
+        chk.nontriv(repr((rows, binby, n)))
     # ---- entry points: TimeSeries / GUI data path ------------------------------------------------------------------------------
     from qats import TimeSeries
     from qats.app.funcs import calculate_rfc
@@ -277,6 +315,22 @@ def run(chk):
 def replay(rp):
     from qats.fatigue.rainflow import rebin
     inp = rp["input"]
+    if inp.get("kind") == "container":
+        from qats.fatigue.rainflow import mesh
+        rows = [tuple(eval(v, {"__builtins__": {}}) for v in row) for row in inp["table"]]
+        ref = np.array([[float(v) for v in row] for row in rows])
+        mk = {"list of tuples": lambda: [tuple(r) for r in rows], "list of lists": lambda: [list(r) for r in rows],
+              "tuple of tuples": lambda: tuple(tuple(r) for r in rows), "ndarray of integers": lambda: np.array(rows, dtype=int)}[inp["form"]]
+        exp = rebin(ref, binby=inp["binby"], n=inp["n"])
+        try:
+            got = rebin(mk(), binby=inp["binby"], n=inp["n"])
+            bad = 0 if np.shape(got) == np.shape(exp) and np.allclose(got, exp, equal_nan=True) else 1
+            print("expected", exp.tolist(), "observed", np.asarray(got).tolist())
+        except Exception as e:
+            print("raised", type(e).__name__, e)
+            bad = 1
+        print("replay: %d failing clause(s)" % bad)
+        return 1 if bad else 0
     if inp.get("kind") == "history":
         from qats.fatigue.rainflow import mesh
         ft = [tuple(float(Fraction(v)) for v in row) for row in inp["table"]]
